@@ -244,10 +244,13 @@ PROPS = {    "C01": {
             {"name": "C11.out", "pkg": SCHED, "replay": "R1t", "labels_unordered": True, "label_prefixes": ["C11."], "must_assert": ["C11.out/captured-output-is-trimmed-stdout-in-environment"],
              "quick": {"entry": "VerifHarness_C12_bytes", "flags": C12_FLAGS, "sample_paths": 2, "bounds": {"attempts": "1..2", "chunk_len": "<= 6 bytes (ASCII)", "config": "stdout file x stderr file x output variable"}},
              "thorough": {"entry": "VerifHarness_C12_bytes3", "flags": C12_FLAGS, "sample_paths": 2, "bounds": {"attempts": "1..3", "chunk_len": "<= 6 bytes (ASCII)"}}},
+            {"name": "C11.big", "pkg": SCHED, "replay": "R1t", "labels_unordered": True, "label_prefixes": ["C11."], "must_assert": ["C11.big/step-with-captured-output-finishes"],
+             "quick": {"entry": "VerifHarness_C11_big", "flags": C12_FLAGS[:-1] + ["3000"], "sample_paths": 1,
+                       "bounds": {"attempts": 1, "captured_output_len": "<= 100000 bytes, symbolic (crosses the 65536-byte pipe capacity)", "pipe_capacity": 65536}}},
         ],
-        "assumptions": C12_ASSUME,
+        "assumptions": C12_ASSUME + ["os.Pipe: a write that would take the pipe beyond 65536 bytes blocks until a thread is reading the pipe to EOF (io.Copy), forever if none does; io.Copy from a pipe returns after the write end is closed"],
         "outside_claim": COMMON_OUTSIDE + ["parameters ($1..$n, NAME=value, quoting, the parse/join/re-parse round trip): decided by regexp submatch semantics, not applicable to this technique (DESIGN section 7)",
-                                           "visibility of the captured value to later steps' child processes (C11.see) and outputs larger than the pipe capacity (C11.big): not built", "non-ASCII output"],
+                                           "visibility of the captured value to later steps' child processes (C11.see): not built", "C11.big decides termination only (content of a >64 KiB value is not compared)", "non-ASCII output"],
     },
     "C12": {
         "obligations": [
